@@ -47,7 +47,7 @@ def _case(draw, unit):
         sz = st.one_of(st.integers(1, capS // 8).map(lambda k: 8 * k), st.integers(2, capS))
         size = [draw(sz), draw(sz)]
     return {'order': order, 'biort': b, 'qshift': q, 'colour': colour, 'bias': draw(scatu.bias_strategy()),
-            'N': draw(st.sampled_from([1, 2, 3])), 'C': 3 if colour else draw(st.sampled_from([1, 2, 3])),
+            'N': draw(st.sampled_from([1, 2, 3, 3, 5])), 'C': 3 if colour else draw(st.sampled_from([1, 2, 3, 3, 6])),
             'size': size,
             'rx': draw(core.recipe_strategy(kinds=['gaussian', 'gaussian', 'gaussian', 'sparse', 'constant', 'zeros',
                                                    'ramp', 'spike', 'ints'], scales=(0, 0, 0, 4, -4)))}
